@@ -493,7 +493,7 @@ pub fn any_name_bytes<const L: usize>() -> [u8; L] {
     let mut i = 0;
     while i < L {
         let b = buf[i];
-        kani::assume(b.is_ascii_lowercase() || b.is_ascii_digit() || b == b'_' || b == b'$');
+        kani::assume(b.is_ascii_alphanumeric() || b == b'_' || b == b'$' || b == b'.');
         i += 1;
     }
     buf
